@@ -67,7 +67,9 @@ def c12(ctx):
                                       "TOc": "2", "CAP": "2", "MaxSend": "2", "MaxRt": "1", "Orders": '{"lsb"}'},
                ["L_Reported"], ["I_E2E_Cc14", "I_E2E_Poll", "I_E2E_Pn"], view=None, workers=14,
                timeout=3000, tag="MC_MidiSystem_lsb")
-    edges_poll(ctx, timeouts=(0, 2), impls=("raw",))
+    pp = edges_poll(ctx, timeouts=(0, 2), impls=("raw",))
+    run_script(ctx, sweep_roundtrip(ctx, variant_paths(pp[0]), "poll", 0, 800)
+               + sweep_roundtrip(ctx, variant_paths(pp[2]), "poll", 2, 800), "roundtrip-in-every-explored-state")
     rows = []
     nsent = 0
     plans = [([ctx.rng.randrange(16)], 0), ([ctx.rng.randrange(16)], 5), (ctx.rng.sample(range(16), 2), 1),
